@@ -140,7 +140,7 @@ void h_step(void)
 static int vf_cmp_key(const void * a, const void * b, void * p)
 {
     const struct vf_el * x = a, * y = b;
-    (void)p;
+    VF_ASSERT(p == VF_CMP_PRIV, "heap: the compare function is handed the private pointer given at init");
     VF_ASSERT(!x->poisoned && !y->poisoned, "heap: the compare function is never given a cleared element");
     /* only the SIGN of the result is specified.  Default: -1 / 0 / +1 (two children that both exceed
      * their parent score the same); -DVF_CMP_MAG: the magnitude follows a fixed pattern over the calls
@@ -310,7 +310,7 @@ void h_b_seq(void)
         if (ncodes > VF_CODEHI) ncodes = VF_CODEHI;
         for (code = VF_CODELO; code < ncodes; code++) {
             struct cstl_heap h; struct vf_model m; int c = code;
-            cstl_heap_init(&h, vf_cmp_key, NULL, offsetof(struct vf_el, hn));
+            cstl_heap_init(&h, vf_cmp_key, VF_CMP_PRIV, offsetof(struct vf_el, hn));
             vf_model_init(&m);
             vf_check_heap(&h, &m);
             for (k = 0; k < len; k++) { vf_push(&h, &m, k, c % 3); c /= 3; }
@@ -341,7 +341,7 @@ void h_b_mix(void)
     vf_setup();
     for (s = 1; s <= VF_MIXMAX; s++) {
         struct cstl_heap h; struct vf_model m;
-        cstl_heap_init(&h, vf_cmp_key, NULL, offsetof(struct vf_el, hn));
+        cstl_heap_init(&h, vf_cmp_key, VF_CMP_PRIV, offsetof(struct vf_el, hn));
         vf_model_init(&m);
         vf_pat_n = s;
         for (k = 0; k < s; k++) vf_push(&h, &m, vf_free_id(&m), vf_next_key());
@@ -408,8 +408,8 @@ void h_b_clear(void)
         }
 #endif
         for (k = 0; k < VF_POOL; k++) EL(k)->poisoned = 0;
-        cstl_heap_init(&h, vf_cmp_key, NULL, offsetof(struct vf_el, hn));
-        cstl_heap_init(&fresh, vf_cmp_key, NULL, offsetof(struct vf_el, hn));
+        cstl_heap_init(&h, vf_cmp_key, VF_CMP_PRIV, offsetof(struct vf_el, hn));
+        cstl_heap_init(&fresh, vf_cmp_key, VF_CMP_PRIV, offsetof(struct vf_el, hn));
         vf_model_init(&m);
         vf_pat_n = 2 * s;
         for (k = 0; k < s; k++) vf_push(&h, &m, k, vf_next_key());
